@@ -3,6 +3,7 @@
 package main
 
 import (
+	"bytes"
 	"fmt"
 	"net"
 	"net/netip"
@@ -116,8 +117,19 @@ func (r *udpRig) drain(atLeast int) []dgram {
 		time.Sleep(50 * time.Microsecond)
 		out = append(out, r.drainOnce()...)
 	}
-	sort.SliceStable(out, func(i, j int) bool { return out[i].client < out[j].client })
+	sortDgrams(out)
 	return out
+}
+
+// canonical order: by client, then by bytes (the order of two datagrams to
+// one client carries no meaning)
+func sortDgrams(ds []dgram) {
+	sort.SliceStable(ds, func(i, j int) bool {
+		if ds[i].client != ds[j].client {
+			return ds[i].client < ds[j].client
+		}
+		return bytes.Compare(ds[i].b, ds[j].b) < 0
+	})
 }
 
 func fmtSent(ds []dgram) string {
@@ -236,6 +248,26 @@ func (r *udpRig) step(f []string) (string, []dgram) {
 		n := r.u.Flush()
 		ds := r.drain(n)
 		return fmtSent(ds), ds
+	case "drain":
+		// read everything queued, serve everything pending, flush — until nothing is left
+		var all []dgram
+		for iter := 0; iter < 256; iter++ {
+			if len(r.queued) > 0 {
+				_, ds := r.step([]string{"udp", "read", "batch", "16"})
+				all = append(all, ds...)
+			}
+			for r.u.Pending() > 0 {
+				_, ds := r.step([]string{"udp", "serve"})
+				all = append(all, ds...)
+			}
+			_, ds := r.step([]string{"udp", "flush"})
+			all = append(all, ds...)
+			if len(r.queued) == 0 && r.u.Pending() == 0 {
+				break
+			}
+		}
+		sortDgrams(all)
+		return fmtSent(all), all
 	}
 	return "bad-op", nil
 }
